@@ -545,6 +545,12 @@ def surface_recipes(ctx):
                 "mol": dense, "cell": [300, 310, 320], "seps": seps})
     out.append({"kind": "surface", "api": "Crystal.hirshfeld_surfaces", "src": "crystal:P1 compressed monatomic N (a = 1.80, 1.85, 1.90 A)",
                 "mol": {"els": [7], "pos": [[90, 92, 95]]}, "cell": [180, 185, 190], "seps": [50, 30] + ([20] if not ctx.quick else [])})
+    # a loosely packed crystal: the half-way surface lies far outside the van der Waals envelope of the atom (a noble gas on a
+    # wide primitive cubic lattice), still well inside the documented sampling box
+    out.append({"kind": "surface", "api": "Crystal.hirshfeld_surfaces", "src": "crystal:P1 primitive cubic Kr (a = 8.8 A)",
+                "mol": {"els": [36], "pos": [[410, 450, 430]]}, "cell": [880, 880, 880], "seps": [80, 50] + ([30] if not ctx.quick else [])})
+    out.append({"kind": "surface", "api": "Crystal.hirshfeld_surfaces", "src": "crystal:P1 wide N2 (a = 7.6, 7.9, 8.2 A)",
+                "mol": {"els": [7, 7], "pos": [[330, 390, 410], [440, 390, 410]]}, "cell": [760, 790, 820], "seps": [80, 50]})
     return out
 
 
